@@ -93,6 +93,13 @@ fn run_case(dir: &Path, c: &Case) -> Result<Vec<&'static str>, (String, String)>
         let _ = std::fs::remove_dir_all(&root);
         return r.map_err(|(s, m)| (s, format!("{} | stderr: {}", m, tail)));
     }
+    if c.scenario == 3 {
+        let r = client_leaves_after_final_ack(&srv, &d, n);
+        let tail = srv.stderr_tail();
+        drop(srv);
+        let _ = std::fs::remove_dir_all(&root);
+        return r.map_err(|(s, m)| (s, format!("{} | stderr: {}", m, tail)));
+    }
     if c.scenario == 2 {
         let r = stale_ack_after_long_window(&srv, &d, n);
         let tail = srv.stderr_tail();
@@ -218,6 +225,30 @@ fn big_upload(srv: &Server, d: &Path, n: usize) -> Result<Vec<&'static str>, (St
     Ok(vec!["big-window-upload-in-duplicate-mode"])
 }
 
+/// a conformant uploader that does not dally: it closes its socket as soon as the first copy of the final ACK has arrived
+/// (the remaining copies then hit a closed port)
+fn client_leaves_after_final_ack(srv: &Server, d: &Path, n: usize) -> Result<Vec<&'static str>, (String, String)> {
+    let data = content(1603 + n as u64, 1300);
+    {
+        let cl = Client::new();
+        let neg = match wclient::start(&cl, srv.addr, true, "left.bin", &[], Duration::from_secs(3)) {
+            wclient::Start::Accepted { neg, .. } => neg,
+            other => return Err(("harness".into(), format!("upload not accepted: {:?}", other))),
+        };
+        let mut srcs = vec![];
+        if let Err(e) = wclient::upload(&cl, &neg, &data, None, &mut srcs) {
+            return Err(("dup-mode-upload".into(), format!("N={}: plain upload failed: {}", n, e)));
+        }
+        // the socket is closed here, right after the first copy of the final ACK
+    }
+    std::thread::sleep(Duration::from_millis(30 + 2 * n as u64));
+    match std::fs::read(d.join("left.bin")) {
+        Ok(stored) if stored == data => Ok(vec!["client-left-after-final-ack"]),
+        Ok(stored) => Err(("completed-upload-lost".into(), format!("N={}: the upload completed (final ACK received) and the client closed its socket; the stored file now has {} bytes, sent {}", n, stored.len(), data.len()))),
+        Err(_) => Err(("completed-upload-lost".into(), format!("N={}: the upload completed (the client received the final ACK) and the client closed its socket; the file is gone afterwards", n))),
+    }
+}
+
 /// sending one window takes longer than the negotiated timeout (600 blocks x (N+1) copies x 1 ms): a stale ACK right after
 /// the window must still not trigger a retransmission - the timeout counts from the end of the last transmission
 fn stale_ack_after_long_window(srv: &Server, d: &Path, n: usize) -> Result<Vec<&'static str>, (String, String)> {
@@ -322,6 +353,11 @@ pub fn run_wire(ctx: &Ctx) {
     for single in [false, true] {
         for n in ["2", "60"] {
             cases.push(Case { n: n.to_string(), single, with_options: true, scenario: 1 });
+        }
+    }
+    for single in [false, true] {
+        for n in ["1", "2", "3", "60"] {
+            cases.push(Case { n: n.to_string(), single, with_options: false, scenario: 3 });
         }
     }
     cases.push(Case { n: "2".to_string(), single: false, with_options: true, scenario: 2 });
